@@ -288,12 +288,28 @@ Fixpoint resolve (F fuel : nat) (G : store) (pending : list nat) (todo : list to
       end
   end.
 
-(* ------------------------------ bbox_of_composite: plain recursion; fuel = stack depth *)
-Fixpoint bbox (depth : nat) (G : store) (v : nat) : option unit :=
+(* ------------------------------ bbox_of_composite
+   As repaired by work/patches/c15-bbox-iterative.diff: nested composites are chased with an
+   explicit work list (a Vec used as a stack), NO visited set; fuel = loop iterations. *)
+Fixpoint bbox_loop (fuel : nat) (G : store) (todo : list nat) : option unit :=
+  match fuel with
+  | O => None
+  | S f =>
+      match todo with
+      | [] => Some tt
+      | v :: t =>
+          bbox_loop f G (rev (filter (fun c => is_composite (get G c)) (succs G v)) ++ t)
+      end
+  end.
+Definition bbox (fuel : nat) (G : store) (v : nat) : option unit := bbox_loop fuel G [v].
+
+(* the code before that repair: plain recursion; fuel = stack depth (kept for Depth.v, which
+   states the repaired defect: recursion depth = nesting depth) *)
+Fixpoint bbox_rec (depth : nat) (G : store) (v : nat) : option unit :=
   match depth with
   | O => None
   | S d =>
-      all_some (fun c => if is_composite (get G c) then bbox d G c else Some tt) (succs G v)
+      all_some (fun c => if is_composite (get G c) then bbox_rec d G c else Some tt) (succs G v)
   end.
 
 (* ------------------------------ MaxBuilder::update_composite_limits
